@@ -452,6 +452,36 @@ def main():
                         ck.violation("cross-check", {"what": "gibbs row vs call-exact posterior x copies", "a": list(a), "position": pos,
                                                      "gibbs": rec["gibbs"][pos], "from_exact": [x / s for x in wts], "inst": I.inst},
                                      key=dict(I.ctx(), site="gibbs_options", field="vs-genotype_posteriors"))
+    # the same relation (the only clause that applies: the model has no likelihood for it) on haplotype sets in which an
+    # ALT carries a base that is not a listed allele of its SNV (coded as a gap, -1): whatever call-exact makes of such a
+    # haplotype, the sampler must target the same distribution
+    import itertools as _it
+    gap_insts = [
+        {"P": 2, "m": "gap-coded", "Fn": 0, "Fd": 16, "pat": "gap", "K": 3, "N": 2, "H": [[0, 0], [1, -1], [0, 1]], "A": [2, 2], "w": [1, 1, 1],
+         "reads": [{"cells": [1, 1], "cnt": 2}, {"cells": [0, 0], "cnt": 1}, {"cells": [1, 0], "cnt": 1}]},
+        {"P": 3, "m": "gap-coded", "Fn": 3, "Fd": 16, "pat": "gap", "K": 3, "N": 3, "H": [[0, 0, 0], [-1, 1, 1], [0, 1, -1]], "A": [2, 2, 3], "w": [2, 1, 1],
+         "reads": [{"cells": [1, 1, 2], "cnt": 1}, {"cells": [0, 1, 1], "cnt": 2}, {"cells": [0, -1, 0], "cnt": 1}]},
+    ]
+    gjobs = [{"inst": gi, "states": [list(v) for v in _it.combinations_with_replacement(range(gi["K"]), gi["P"])]} for gi in gap_insts]
+    rr1 = pool.map_tasks("impl.c02", [{"op": "rows", "jobs": gjobs, "cache": False}], mode="jit")[0]
+    rr2 = pool.map_tasks("impl.c02", [{"op": "exact", "insts": gap_insts}], mode="jit")[0]
+    if not rr1["ok"] or not rr2["ok"]:
+        ck.violation("impl-error", {"error": (rr1 if not rr1["ok"] else rr2)["error"]}, key={"site": "gap-coded-haplotypes"})
+    else:
+        for gi, job, rws, gp in zip(gap_insts, gjobs, rr1["result"], rr2["result"]):
+            K, P = gi["K"], gi["P"]
+            for a, rec in zip(job["states"], rws["rows"]):
+                for pos in range(P):
+                    wts = []
+                    for b in range(K):
+                        g = sorted(a[:pos] + [b] + a[pos + 1:])
+                        wts.append(gp[rank(g)] * g.count(b))
+                    s = sum(wts)
+                    ck.evaluations += 1
+                    if s > 0 and not all(abs(rec["gibbs"][pos][b] - wts[b] / s) <= 1e-6 for b in range(K)):
+                        ck.violation("cross-check", {"what": "gibbs row vs call-exact posterior x copies (gap-coded haplotype allele)", "a": list(a), "position": pos,
+                                                     "gibbs": rec["gibbs"][pos], "from_exact": [x / s for x in wts], "inst": gi},
+                                     key={"site": "gibbs_options", "field": "vs-genotype_posteriors", "pat": "gap-coded"})
     log("cross-check against call-exact arrays done")
     ck.traces += len(r.printed)
     any_I = insts[keys[len(keys) // 2]]
@@ -498,6 +528,11 @@ def main():
                             "H": [[0, 0, 0, 0], [1, 1, 1, 1], [0, 0, 0, 1]], "A": [2, 2, 2, 2], "w": [2, 0, 1],
                             "reads": [{"cells": [0, 0, -1, 0], "cnt": 1}, {"cells": [1, 1, 1, 1], "cnt": 5}], "tile": 16, "deep": True},
                    "a0": [0, 2], "kind": kind, "n_steps": 2, "seed": rnd.randrange(2**31)})
+        # a deep sample started far from the mode: candidates beat the current allele by more than the range of exp()
+        tj.append({"inst": {"P": 2, "m": "regime", "Fn": [0, 3][kind == "mh"], "Fd": 16, "pat": "deep-far-start", "K": 3, "N": 4,
+                            "H": [[0, 0, 0, 0], [1, 1, 1, 1], [0, 0, 0, 1]], "A": [2, 2, 2, 2], "w": [2, 1, 1],
+                            "reads": [{"cells": [0, 0, -1, 0], "cnt": 1}, {"cells": [1, 1, 1, 1], "cnt": 5}], "tile": 16, "deep": True},
+                   "a0": [0, 0], "kind": kind, "n_steps": 2, "seed": rnd.randrange(2**31)})
     tj.append({"inst": {"P": 150, "m": "regime", "Fn": 3, "Fd": 16, "pat": "pooled", "K": 2, "N": 1, "H": [[0], [1]], "A": [2], "w": [3, 1],
                         "reads": [{"cells": [0], "cnt": 3}, {"cells": [1], "cnt": 1}]},
                "a0": [0] * 148 + [1, 1], "kind": "gibbs", "n_steps": 1, "seed": rnd.randrange(2**31)})
